@@ -107,6 +107,13 @@ def variants(rng, spec):
         i = rng.choice(gates)
         v["ops"][i]["dagger"] = not v["ops"][i].get("dagger", False)
         yield "dagger", v
+    foldable = [i for i in gates if ops[i].get("pars") and not isinstance(ops[i]["pars"][0], dict)]
+    if foldable:     # G(z).H <-> G(-z): the same physics only for gates whose inverse is the negated first parameter
+        v = copy.deepcopy(spec)
+        i = rng.choice(foldable)
+        v["ops"][i]["dagger"] = not v["ops"][i].get("dagger", False)
+        v["ops"][i]["pars"][0] = -v["ops"][i]["pars"][0]
+        yield "dagger_fold", v
     two = [i for i, o in enumerate(ops) if len(o["regs"]) >= 2]
     if two:
         v = copy.deepcopy(spec)
@@ -192,8 +199,11 @@ def has_meas_par(spec):
 
 def one_pair(ctx, sf, base, kind, var, reqs, pending, gaussian_only):
     import strawberryfields.program_utils as pu
-    p1, _ = progs.build(base, "a")
-    p2, _ = progs.build(var, "b")
+    # half of the pairs share Operation instances (one object applied in both programs / several times in one)
+    cache = {} if (len(pending) + len(base["ops"])) % 2 == 0 else None
+    p1, _ = progs.build(base, "a", op_cache=cache)
+    p2, _ = progs.build(var, "b", op_cache=cache)
+    ctx.tally("shared-op-instances" if cache is not None else "fresh-op-instances")
     case = dict(base=base, kind=kind, variant=var)
     nt = len(base["ops"]) >= 2 and kind != "identical"
     # ---- real results
@@ -230,8 +240,16 @@ def one_pair(ctx, sf, base, kind, var, reqs, pending, gaussian_only):
                 sym = lambda o: (o["cls"] in ("S2gate", "CZgate", "CKgate")
                                  or cmds_for_model(dict(ops=[o]))[0]["cls"] in ("CXgate0", "BSgateSym"))
                 canon = lambda o: sorted(o["regs"]) if sym(o) else o["regs"]
-                fields1 = [(o["cls"], o.get("pars"), canon(o), bool(o.get("dagger")), o.get("select")) for o in base["ops"]]
-                fields2 = [(o["cls"], o.get("pars"), canon(o), bool(o.get("dagger")), o.get("select")) for o in var["ops"]]
+                ADD = ("Dgate", "Xgate", "Zgate", "Sgate", "Pgate", "Rgate", "BSgate", "S2gate", "CXgate", "CZgate", "Kgate",
+                       "Vgate", "CKgate")
+
+                def fold(o):    # G(z).H is G(-z) for the gates whose inverse is the negated first parameter
+                    pars, dg = o.get("pars"), bool(o.get("dagger"))
+                    if dg and o["cls"] in ADD and pars and not isinstance(pars[0], dict):
+                        return [-pars[0]] + list(pars[1:]), False
+                    return pars, dg
+                fields1 = [(o["cls"],) + fold(o) + (canon(o), o.get("select")) for o in base["ops"]]
+                fields2 = [(o["cls"],) + fold(o) + (canon(o), o.get("select")) for o in var["ops"]]
             if name == "equal" and (fields1 != fields2 or base["n"] != var["n"]):
                 why = "programs differ field by field"
             if gaussian_only:
